@@ -98,6 +98,35 @@ fn flip_case(code: i64, p: &[i128], ptw: &[i128]) -> (Vec<Vec<i128>>, Vec<Vec<i1
     })
 }
 
+/// an LWE secret of dimension nl <= n (ternary/binary as `kind`), its clear coefficients, and sigma_{-1}(zero-padded secret):
+/// what lwe_switching_key / glwe_to_lwe / lwe_to_glwe key encryption use as GLWE polynomial
+fn lwe_secret_as_glwe<BE: Backend>(module: &Module<BE>, n: usize, nl: usize, kind: i128, param: i128, seed: &[u8; 32]) -> (LWESecret<Vec<u8>>, Vec<i64>)
+where Module<BE>: VecZnxAutomorphism {
+    let mut sk = LWESecret::alloc(Degree(nl as u32));
+    fill_lwe_secret(&mut sk, kind, param, &mut Source::new(*seed));
+    let mut a: VecZnx<Vec<u8>> = VecZnx::alloc(n, 1, 1);
+    a.at_mut(0, 0)[..nl].copy_from_slice(sk.raw());
+    let mut r: VecZnx<Vec<u8>> = VecZnx::alloc(n, 1, 1);
+    module.vec_znx_automorphism(-1, &mut r, 0, &a, 0);
+    (sk, r.at(0, 0).to_vec())
+}
+
+/// cells of the idx-th GGSW inside a serialised BlindRotationKey (8 bytes distribution, u64 count, then GGSWs: 8 bytes + MatZnx
+/// with a 48-byte header), in slot order (row, col), each cell = columns 0..rank limb-major
+fn brk_cells(bytes: &[u8], idx: usize, n: usize, size: usize, rank: usize, dnum: usize) -> Vec<i128> {
+    let cols = rank + 1;
+    let mat = n * size * dnum * cols * cols * 8;
+    let start = 16 + idx * (8 + 48 + mat) + 8 + 48;
+    let w: Vec<i64> = bytes[start..start + mat].chunks_exact(8).map(|c| i64::from_le_bytes(c.try_into().unwrap())).collect();
+    let blk = n * cols * size; // one (row, col_in) block: VecZnx(n, cols_out = cols, size), at(col, limb) = n*(limb*cols + col)
+    let mut out = Vec::with_capacity(w.len());
+    for row in 0..dnum { for col in 0..cols {
+        let b0 = (row * cols + col) * blk;
+        for c in 0..cols { for j in 0..size { let o = b0 + n * (j * cols + c); out.extend(w[o..o + n].iter().map(|x| *x as i128)); } }
+    } }
+    out
+}
+
 // ------------------------------------------------------------------ 6004 / 6005: standard gadget objects
 struct Gd { be: i128, n: usize, b: usize, size: usize, rin: usize, rout: usize, dnum: usize, dsize: usize, nk: usize, kind: i128,
             x10: i128, sigma: f64, bound: f64, skind: i128, sparam: i128, idx: usize }
@@ -123,6 +152,35 @@ fn gadget_case(code: i64, p: &[i128], msg: &[i128]) -> (Vec<Vec<i128>>, Vec<Vec<
         if code == 6005 {
             let rank = h.rout;
             let cells = h.dnum * (rank + 1);
+            if h.kind == 1 {
+                // blind-rotation key (CGGI): GGSW i encrypts the constant polynomial s_lwe[i]; entry h.idx of n_lwe = rin
+                use poulpy_bin_fhe::blind_rotation::{BlindRotationKey, BlindRotationKeyLayout, CGGI};
+                let nl = h.rin;
+                let lay = BlindRotationKeyLayout { n_glwe: dn, n_lwe: Degree(nl as u32), base2k: b2, k: kk, dnum: dnm, rank: rk_out };
+                let mut run = |xs: &[u8; 32], xl: &[u8; 32], xe: &[u8; 32], xa: &[u8; 32]| -> (Vec<i128>, i64) {
+                    let (sk, _) = glwe_secret(n, rank, h.skind, h.sparam, xs);
+                    let mut skp = module.glwe_secret_prepared_alloc(rk_out);
+                    module.glwe_secret_prepare(&mut skp, &sk);
+                    let mut skl = LWESecret::alloc(Degree(nl as u32));
+                    fill_lwe_secret(&mut skl, 2, 8, &mut Source::new(*xl));
+                    let mut key = BlindRotationKey::<Vec<u8>, CGGI>::alloc(&lay);
+                    key.encrypt_sk(&module, &skp, &skl, &noise, &mut Source::new(*xe), &mut Source::new(*xa), sc.borrow());
+                    (brk_cells(&ser(&key), h.idx, n, h.size, rank, h.dnum), skl.raw()[h.idx])
+                };
+                let (c0, bit) = run(&sxo, &sxi, &sxe, &sxa);
+                let flags = gadget_flags(&c0, &run(&sxo, &sxi, &sxe, &sxa).0, &run(&flip_seed(&sxo), &flip_seed(&sxi), &sxe, &sxa).0,
+                                         &run(&sxo, &sxi, &flip_seed(&sxe), &sxa).0, &run(&sxo, &sxi, &sxe, &flip_seed(&sxa)).0, cells, h.rout, h.size, n);
+                let (_, s) = glwe_secret(n, rank, h.skind, h.sparam, &sxo);
+                let skip = h.idx * cells;
+                let ua = |seed: &[u8; 32]| -> Vec<i128> { raw_u64(seed, (skip + cells) * clen)[skip * clen..].to_vec() };
+                let errs = |seed: &[u8; 32]| -> Vec<i128> {
+                    let mut xe = Source::new(*seed);
+                    for _ in 0..skip { let _ = replay_error(&module, n, h.b, h.size, noise, &mut xe); }
+                    (0..cells).flat_map(|_| to128(&replay_error(&module, n, h.b, h.size, noise, &mut xe))).collect()
+                };
+                let mut m = vec![0i128; n]; m[0] = bit as i128;
+                return (vec![m, to128(&s), ua(&sxa), errs(&sxe), ua(&flip_seed(&sxa)), errs(&flip_seed(&sxe))], vec![c0, flags]);
+            }
             let mut run = |msg: &[i128], xs: &[u8; 32], xe: &[u8; 32], xa: &[u8; 32]| -> Vec<i128> {
                 let (sk, _) = glwe_secret(n, rank, h.skind, h.sparam, xs);
                 let mut skp = module.glwe_secret_prepared_alloc(rk_out);
@@ -188,6 +246,27 @@ fn gadget_case(code: i64, p: &[i128], msg: &[i128]) -> (Vec<Vec<i128>>, Vec<Vec<
                     let mut prods = Vec::new();
                     for i in 0..rout { for j in i..rout { prods.push(negamul(&sp[i], &sp[j])); } }
                     (dump(&g.to_ref()), prods, s_out_lib)
+                }
+                5 => { // LWE switching key: rank 1 -> 1, dsize 1, LWE dimensions x10 (in) and idx (out)
+                    let (sl_in, p_in) = lwe_secret_as_glwe(&module, n, h.x10 as usize, h.skind, h.sparam, xi);
+                    let (sl_out, p_out) = lwe_secret_as_glwe(&module, n, h.idx, h.skind, h.sparam, xo);
+                    let mut g = LWESwitchingKey::alloc(dn, b2, kk, dnm);
+                    module.lwe_switching_key_encrypt_sk(&mut g, &sl_in, &sl_out, &noise, &mut xe, &mut xa, sc.borrow());
+                    (dump(&g.to_ref()), vec![p_in], p_out)
+                }
+                6 => { // GLWE -> LWE key: plaintext = the GLWE secret (rank_in columns), encrypted under sigma_{-1}(s_lwe) (rank 1)
+                    let (sl, p_l) = lwe_secret_as_glwe(&module, n, h.idx, h.skind, h.sparam, xo);
+                    let mut g = GLWEToLWEKey::alloc(dn, b2, kk, rk_in, dnm);
+                    module.glwe_to_lwe_key_encrypt_sk(&mut g, &sl, &sk_in, &noise, &mut xe, &mut xa, sc.borrow());
+                    (dump(&g.to_ref()), polys(&s_in), p_l)
+                }
+                7 => { // LWE -> GLWE key: plaintext = sigma_{-1}(s_lwe), encrypted under the GLWE secret (rank_out)
+                    let (sl, p_l) = lwe_secret_as_glwe(&module, n, h.idx, h.skind, h.sparam, xi);
+                    let mut skp = module.glwe_secret_prepared_alloc(rk_out);
+                    module.glwe_secret_prepare(&mut skp, &sk_out);
+                    let mut g = LWEToGLWEKey::alloc(dn, b2, kk, rk_out, dnm);
+                    module.lwe_to_glwe_key_encrypt_sk(&mut g, &sl, &skp, &noise, &mut xe, &mut xa, sc.borrow());
+                    (dump(&g.to_ref()), vec![p_l], s_out_lib)
                 }
                 _ => {
                     let mut g = GGLWEToGGSWKey::alloc(dn, b2, kk, rk_out, dnm, dsz);
@@ -407,8 +486,9 @@ pub fn generate(tier: &str, seed: u64) -> Vec<Rec> {
     // ---- standard gadget objects: cells reproduced by the model, error_is_full on every cell
     let reps = if tier == "thorough" { 900 } else { 130 };
     for it in 0..reps {
-        let (code, kind) = match it % 7 { 0 => (6005, 0), 1 | 2 => (6004, 0), 3 => (6004, 1), 4 => (6004, 2), 5 => (6004, 3), _ => (6004, 4) };
-        let be = 1 + (it / 7) as i128 % 4;
+        let (code, kind) = match it % 11 { 0 => (6005, 0), 1 => (6004, 0), 2 => (6005, 1), 3 => (6004, 1), 4 => (6004, 2), 5 => (6004, 3), 6 => (6004, 4),
+                                           7 => (6004, 5), 8 => (6004, 6), 9 => (6004, 7), _ => (6004, 0) };
+        let be = 1 + (it / 11) as i128 % 4;
         let n = 1usize << rng.range(3, 5);
         let rout = rng.range(1, 3) as usize;
         let mut rin = rng.range(1, 3) as usize;
@@ -423,20 +503,27 @@ pub fn generate(tier: &str, seed: u64) -> Vec<Rec> {
         let bmin = if kind >= 3 { log2_ceil(n) + 2 } else { 2 };
         let bmax = if be <= 2 { (51 - log2_ceil(hw)).min(50) } else { 52 };
         let b = rng.range(bmin as i64, bmax as i64) as usize;
-        let dsize = rng.range(1, 3) as usize;
+        let lwe_key = code == 6004 && kind >= 5;
+        let brk = code == 6005 && kind == 1;
+        if lwe_key && kind != 7 { /* result is an LWE-dimension key: rank_out 1 */ }
+        let (rin, rout) = match (code, kind) { (6004, 5) => (1, 1), (6004, 6) => (rin, 1), (6004, 7) => (1, rout), (6005, 1) => (rng.range(1, 6) as usize, rout), _ => (rin, rout) };
+        let dsize = if lwe_key || brk { 1 } else { rng.range(1, 3) as usize };
         let dnum = rng.range(1, 3) as usize;
         let size = (dnum * dsize).max(dsize + 1) + rng.below(2) as usize;
         let nk = match rng.below(3) { 0 => size * b, _ => rng.range(1, (size * b) as i64) as usize };
-        let x10 = rng.range(-5, 5) as i128;
-        let idx = if kind == 4 { rng.below(rout as u64) as i128 } else { 0 };
+        // x10: galois generator (kind 2) / LWE dimension of the input secret (kind 5); idx: entry (kind 4, BRK) / LWE dimension (kinds 5..7)
+        let x10 = if lwe_key { rng.range(1, n as i64) as i128 } else { rng.range(-5, 5) as i128 };
+        let idx = if kind == 4 && code == 6004 { rng.below(rout as u64) as i128 } else if lwe_key { rng.range(1, n as i64) as i128 }
+                  else if brk { rng.below(rin as u64) as i128 } else { 0 };
         let (limb, slog, eb) = ceil_bound(NoiseInfos::new(nk, 3.2, 19.2).unwrap(), b);
+        let (skind, sparam) = if lwe_key { (skind, if skind == 1 || skind == 3 { 1 } else if skind == 4 { 1 } else { sparam as i128 }) } else { (skind, sparam as i128) };
         let mut ps: Vec<i128> = vec![be, n as i128, b as i128, size as i128, rin as i128, rout as i128, dnum as i128, dsize as i128, nk as i128,
-            kind, x10, 3200, 19200, skind, sparam as i128, idx];
+            kind, x10, 3200, 19200, skind, sparam, idx];
         for _ in 0..4 { ps.extend(seed_words(&rng.bytes32())); }
         ps.extend([eb, limb as i128, slog]);
         let msg: Vec<i128> = if code == 6005 { (0..n).map(|_| rng.range(-1, 1) as i128).collect() } else { (0..rin * n).map(|_| rng.range(-2, 2) as i128).collect() };
         let derived = std::panic::catch_unwind(|| gadget_case(code, &ps, &msg).0).unwrap_or_default();
-        let mut vs = if code == 6004 && !derived.is_empty() { vec![] } else { vec![msg.clone()] };
+        let mut vs = if (code == 6004 || brk) && !derived.is_empty() { vec![] } else { vec![msg.clone()] };
         vs.extend(derived);
         out.push(Rec::new(code, ps, vs));
     }
